@@ -68,7 +68,24 @@ def register(R):
         'filename': Opaque('filename', kind='fileobj_or_name'), 'extra_args': eng.make_symbolic(EXTRA, 'extra_args', st),
         'expected_size': eng.make_symbolic(OptT(Int), 'expected_size', st)}))
     R.mark_inline(f'{SUB}._submit_get_object_job', f'{SUB}._notify_jobs_to_complete', f'{SUB}._get_size', f'{SUB}._allocate_temp_file')
+    # OSUtils.allocate: creates the temp file at full size; a failure removes what was created (no temp file is left)
+    R.contract(f'{UT}:OSUtils.open', params=dict(filename=ExtT('str'), mode=Str), returns=ExtT('allocfile'), raise_when={'OSError': lambda c: None})
+    R.external('allocfile', __enter__=ExtSpec(returns=lambda eng, st, recv, a, k: recv, pure=True), __exit__=ExtSpec(raises=('OSError',)))
+    R.contract('s3transfer.compat:fallocate', params=dict(fileobj=ExtT('allocfile'), size=Int), raise_when={'OSError': lambda c: None})
+
+    def alloc_common(c):
+        op, fa, rm = calls(c.trace, 'OSUtils.open'), calls(c.trace, 'fallocate'), calls(c.trace, 'OSUtils.remove_file')
+        return op, fa, rm
+
     R.contract(f'{UT}:OSUtils.allocate', props=['C19', 'C06'], params=dict(filename=ExtT('str'), size=Int),
+               checks=lambda c: {
+                   'creates_that_file_at_the_requested_size': B(
+                       len(alloc_common(c)[0]) == 1 and alloc_common(c)[0][0].extra['env']['filename'] is c.a_filename
+                       and len(alloc_common(c)[1]) == 1 and alloc_common(c)[1][0].extra['env']['size'] is c.a_size),
+                   'nothing_removed_on_success': B(not alloc_common(c)[2])},
+               raises={'OSError': lambda c: {'a_failed_allocation_removes_the_file': B(
+                   len(alloc_common(c)[2]) == 1 and alloc_common(c)[2][0].extra['env']['filename'] is c.a_filename
+                   and index_of(c.trace, alloc_common(c)[2][0]) == len(c.trace) - 1)}},
                raise_when={'OSError': lambda c: None})
 
     def job_of(ev):
